@@ -1,8 +1,10 @@
 #!/bin/sh
 # MANIFEST.setup_cmd: build the Lean models, theorems and the model driver from files on disk only (offline).
-set -e
 HERE="$(cd "$(dirname "$0")" && pwd)"
-cd "$HERE/lean"
-lake build 2>&1 | tail -n 40
-test -x .lake/build/bin/molli_driver
+cd "$HERE/lean" || exit 1
+lake build > "$HERE/lean/.setup.log" 2>&1
+rc=$?
+tail -n 30 "$HERE/lean/.setup.log"
+if [ $rc -ne 0 ]; then echo "setup: lake build failed (rc=$rc)"; exit $rc; fi
+test -x .lake/build/bin/molli_driver || { echo "setup: driver missing"; exit 1; }
 echo "setup ok"
